@@ -238,6 +238,9 @@ func nmfJudge(k nmfCase) (sig, detail string) {
 	var err error
 	var a0, a1 string
 	fr, msg := safeCall(func() { f, err, a0, a1 = nmfCall(k) })
+	if fr == "" && err == nil && f != nil {
+		safeCall(func() { c17Held.hold(f, k.String()) })
+	}
 	conv := convention(k)
 	if fr != "" {
 		return "C17|" + conv + "|" + k.class + "|panic", fmt.Sprintf("%s panicked in %s: %s", k, fr, msg)
@@ -361,8 +364,14 @@ func windowValues(w int) []*big.Int {
 	return []*big.Int{big.NewInt(0), big.NewInt(1), all, top, alt}
 }
 
+var c17Held = newHeldRing(400)
+var c17Seen int
+
 func c17Record(c *ev.Collector, t ev.Fataler, k nmfCase) {
 	c.Eval()
+	if c17Seen++; c17Seen%16 == 0 && !c17Held.check(c, t, "C17") {
+		return
+	}
 	sig, d := nmfJudge(k)
 	nt := k.class != "in-range"
 	if len(k.win) >= 2 && (k.win[0]%8 != 0 || k.win[1]%8 != 0) {
